@@ -259,6 +259,51 @@ def shard_crash(prop: str, tier: str, seed: int, name: str, signalled: bool) -> 
     return c.export()
 
 
+MULTI_SPEC = {"name": "gate-twice", "stages": [stage("a", [], [ok()]), stage("g", ["a"], [{"b": "suspend", "k": 2, "emit": [emit("k_g")]}]), stage("z", ["g"], [ok()])]}
+
+
+def multi_case(c: Campaign, p1: int, p2: int, kind: str, sd: dict[str, Any]) -> None:
+    """A gate that suspends twice and two persistent signals (identical / same name / different): one resume per signal."""
+    spec = MULTI_SPEC
+    sigs = [("go", {"n": 1}), {"identical": ("go", {"n": 1}), "same-name": ("go", {"n": 2}), "different": ("go2", {"m": 1})}[kind]]
+    tasks.reset_ledger()
+    run = Run(spec, make_schedule(sd))
+    for at, (name, data) in zip((p1, p2), sigs):
+        run.injections.setdefault(at, []).append(inj_signal("g", name, data, True))
+    run.drain()
+    # signals whose position lies beyond the end of the run are sent once the engine is quiet
+    sent = len([1 for _s, _st, _w, op, _t, _r, mt, _p in run.w.qlog() if mt == "SignalStage" and op == "ins"])
+    while sent < 2:
+        name, data = sigs[sent]
+        inj_signal("g", name, data, True)(run)
+        sent += 1
+        run.drain()
+    got = run.outcome()
+    nexec = got["counts"].get("g.t0", 0)
+    buf = json.loads(run.w.scalar("SELECT context FROM stage_executions WHERE id = 'W1-g'") or "{}").get("_buffered_signals")
+    case = {"spec": spec, "schedule": sd, "signals": [[p1, sigs[0][0], sigs[0][1]], [p2, sigs[1][0], sigs[1][1]]], "kind": "multi", "multi": [p1, p2, kind]}
+    if nexec != 3 or got["stages"].get("g") != "SUCCEEDED" or got["workflow"] != "SUCCEEDED" or buf:
+        c.violation(f"two-signals:{'lost' if nexec < 3 else 'duplicated' if nexec > 3 else 'not-finished'}|{kind}", case,
+                    f"gate suspending twice got 2 persistent signals ({kind}): executed {nexec}x (expected 3), gate {got['stages'].get('g')}, workflow {got['workflow']}, buffer {buf}")
+    c.case(("c18m", p1, p2, kind, sd), True, ["two-signals", f"two-signals:{kind}"],
+           sample={"spec": "gate-twice", "signals": case["signals"], "executions": nexec, "workflow": got["workflow"]} if len(c.samples) < 2 else None)
+
+
+def shard_multi(prop: str, tier: str, seed: int, n: int) -> dict[str, Any]:
+    """Two persistent signals at generated positions (both before the gate starts, one each side, both after) under generated schedules."""
+    c = Campaign(prop, tier, seed, LEVEL)
+
+    @hseed(seed)
+    @settings(max_examples=n, database=None, deadline=None, derandomize=False, suppress_health_check=list(HealthCheck),
+              phases=[Phase.generate], report_multiple_bugs=False)
+    @given(st.integers(0, 14), st.integers(0, 14), st.sampled_from(["identical", "same-name", "different"]), schedule_desc(max_len=30), st.booleans())
+    def t(p1, p2, kind, sd, fifo):
+        multi_case(c, p1, p2, kind, {"style": "fifo", "d": [], "R": 2} if fifo else sd)
+
+    t()
+    return c.export()
+
+
 def shard_race(prop: str, tier: str, seed: int, name: str, P: int) -> dict[str, Any]:
     """SignalStage handled concurrently with the RunTask result that suspends the gate (statement-level interleaving)."""
     from checks import c07
@@ -289,6 +334,7 @@ def run(c: Campaign, jobs: int) -> None:
     n = 800 if quick else 20000
     shards = max(1, jobs)
     args += [(shard_random, (c.prop, c.tier, c.seed * 1000 + k, max(1, n // shards))) for k in range(shards)]
+    args += [(shard_multi, (c.prop, c.tier, c.seed * 1000 + 700 + k, max(1, (n // 2) // shards))) for k in range(shards)]
     for name in gate_specs():
         args.append((shard_crash, (c.prop, c.tier, c.seed, name, True)))
         args.append((shard_crash, (c.prop, c.tier, c.seed, name, False)))
@@ -303,10 +349,10 @@ def run(c: Campaign, jobs: int) -> None:
     c.assumptions += [
         "the gate's durable status when the SignalStage handler runs is read by the harness immediately before the delivery (single worker)",
         "the statement-level interleaving of SignalStage with the suspending RunTask result is explored within a pre-emption bound (scenario shared with C07)",
-        "one signal per gate; SQLite only",
+        "one signal per gate, except the two-signal shard (a gate suspending twice, two persistent signals, identical or not); SQLite only",
     ]
     for cls in ("persistent:NOT_STARTED", "persistent:RUNNING", "persistent:SUSPENDED", "transient:SUSPENDED", "transient:RUNNING", "crash", "unsignalled", "signal-race",
-                "signal-after-restart"):
+                "signal-after-restart", "two-signals:identical"):
         if c.classes.get(cls, 0) == 0:
             c.harness_error(f"generator starvation: class {cls} never produced")
 
@@ -315,6 +361,9 @@ def regress(c: Campaign, rec: dict[str, Any]) -> None:
     case = rec["case"]
     spec = case["spec"]
     sd = {k: v for k, v in case["schedule"].items() if k in ("style", "d", "R", "hold", "hold_for")}
+    if case.get("kind") == "multi":
+        multi_case(c, case["multi"][0], case["multi"][1], case["multi"][2], sd)
+        return
     if "crash_commit" in case["schedule"]:
         return
     run_, info = run_case(spec, sd, case["signals"])
